@@ -20,3 +20,32 @@ chk("C02", "exploration",
     "Compile failures of the bindings other than layout assertions are C01's and are counted inconclusive here.",
     "runtime monitoring: differential C<->Rust probe executables + metamorphic option sets",
     "DESIGN.md §4 C02")
+
+chk("C18", "exploration",
+    "Each repository header and each generated C/C++ program (interleaved functions, statics, types, namespaces, several ABIs, "
+    "per-function and block attributes, both sides of `unsafe extern`) is generated four times (no pass / merge / sort / both); "
+    "syn inventories give per-module item multisets with foreign items flattened to (abi, block attrs, unsafety, item+attrs), "
+    "which must be equal, merged blocks must have pairwise distinct keys, per-kind relative order must be kept, processed output "
+    "must still compile when the unprocessed one does, and hook K4 re-applies the passes to their own output in-process.",
+    "Trusts syn's parse and token printing; run with --formatter none so that rustfmt's import re-ordering is not attributed to the passes.",
+    "runtime monitoring: metamorphic 4-way relation over item inventories + in-process idempotence hook",
+    "DESIGN.md §4 C18")
+
+chk("C14", "exploration",
+    "Complete grid: two trigger headers x every minor 1.51..1.90 (+ patch, beta, nightly-suffixed spellings) and nightly x "
+    "{no edition, 2018, 2021, 2024}. A token census of gated constructs is checked against an independent release table "
+    "(no construct below its version), capabilities must be monotone along the version axis, unsupported edition/target pairs "
+    "must be rejected without output, the default must equal the newest stable target at its newest edition, and outputs are "
+    "compiled by the host rustc with the requested edition.",
+    "Trusts my release table (from the Rust release notes) and the census patterns of vf-inv; host rustc 1.95 only.",
+    "runtime monitoring: exhaustive configuration grid with census oracle against an independent table",
+    "DESIGN.md §4 C14")
+
+chk("C11", "exploration",
+    "Repository headers and generated programs: (a) N separate CLI processes per header under varied ASLR, environment, cwd and "
+    "stdout-vs-file, hashing bindings, depfile and wrapper source; (b) in-process histories of up to 50 generations in random "
+    "order; (c) 8/16 threads generating concurrently behind a barrier; every generation (bindings hash, error kind and the "
+    "recorded ParseCallbacks notification sequence) is compared with a fresh single-generation process.",
+    "Output equality is by 64-bit SipHash + length inside the driver and sha256 for files; deadlock only via wall-clock watchdog (inconclusive).",
+    "runtime monitoring: repeated/concurrent executions with output-equality oracle (processes, histories, threads)",
+    "DESIGN.md §4 C11")
